@@ -396,6 +396,82 @@ async fn test_multipart_failed_complete() -> Result<()> {
 
 #[tokio::test]
 #[tracing::instrument]
+async fn test_multipart_replaces_object() -> Result<()> {
+    let _guard = serial().await;
+
+    let c = Client::new(config());
+
+    let bucket = format!("test-multipart-replace-{}", Uuid::new_v4());
+    let bucket = bucket.as_str();
+    create_bucket(&c, bucket).await?;
+
+    let key = "sample.txt";
+    let content = "abcdefghijklmnopqrstuvwxyz/0123456789/!@#$%^&*();\n";
+
+    // an object with metadata and a checksum ...
+    {
+        let crc32c = base64_simd::STANDARD.encode_to_string(crc32c::crc32c(b"old").to_be_bytes());
+        c.put_object()
+            .bucket(bucket)
+            .key(key)
+            .body(ByteStream::from_static(b"old"))
+            .metadata("color", "red")
+            .checksum_crc32_c(crc32c)
+            .send()
+            .await?;
+    }
+
+    // ... is replaced by a multipart upload without either
+    {
+        let ans = c.create_multipart_upload().bucket(bucket).key(key).send().await?;
+        let upload_id = ans.upload_id.unwrap();
+
+        c.upload_part()
+            .bucket(bucket)
+            .key(key)
+            .upload_id(upload_id.as_str())
+            .body(ByteStream::from_static(content.as_bytes()))
+            .part_number(1)
+            .send()
+            .await?;
+
+        let part = CompletedPart::builder().part_number(1).build();
+        let upload = CompletedMultipartUpload::builder().parts(part).build();
+        c.complete_multipart_upload()
+            .bucket(bucket)
+            .key(key)
+            .multipart_upload(upload)
+            .upload_id(upload_id.as_str())
+            .send()
+            .await?;
+    }
+
+    {
+        let ans = c
+            .get_object()
+            .bucket(bucket)
+            .key(key)
+            .checksum_mode(ChecksumMode::Enabled)
+            .send()
+            .await?;
+
+        assert!(ans.metadata().is_none_or(|m| m.is_empty()));
+        assert!(ans.checksum_crc32_c().is_none());
+
+        let body = ans.body.collect().await?.into_bytes();
+        assert_eq!(body.as_ref(), content.as_bytes());
+    }
+
+    {
+        delete_object(&c, bucket, key).await?;
+        delete_bucket(&c, bucket).await?;
+    }
+
+    Ok(())
+}
+
+#[tokio::test]
+#[tracing::instrument]
 async fn test_multipart_unknown_upload() -> Result<()> {
     use aws_sdk_s3::error::ProvideErrorMetadata;
 
